@@ -5,7 +5,7 @@ from vlib import frontends, gens, kinds, model, pm, refframe, specpdu
 from vlib.engine import Disc, Outcome
 from checks import c04, c09
 
-PID = 'C12'
+PID = 'C12'   # noqa
 RULE = ('Hypothesis: byte streams built three ways - pure random bytes; 1..4 valid write frames then 1..4 mutations (bit flip, '
         'byte substitution biased to delimiters/hex/sign characters, deletion, insertion, truncation, extension, 16-bit burst); '
         'structured hostile frames = valid framing and checksum around a PDU that is truncated, over-long, with byte count vs '
@@ -41,7 +41,15 @@ def _valid_write(draw, i):
 
 @st.composite
 def _hostile_pdu(draw):
-    which = draw(st.sampled_from(['trunc', 'extend', 'bytecount', 'unknown-fc', 'unknown-sub', 'empty', 'raw', 'valid-any', 'listen-only']))
+    which = draw(st.sampled_from(['trunc', 'extend', 'bytecount', 'unknown-fc', 'unknown-sub', 'empty', 'raw', 'valid-any', 'listen-only', 'short-write', 'long-write']))
+    if which in ('short-write', 'long-write'):
+        # a write to cells that exist whose header fields are consistent with each other, but whose data field is cut short /
+        # carries surplus bytes: not a well-formed request, so nothing may be written
+        pdu = draw(_valid_write(draw(st.integers(0, 5))))
+        if which == 'long-write':
+            return pdu + draw(st.binary(min_size=1, max_size=4))
+        fixed = {5: 1, 6: 1, 15: 6, 16: 6}[pdu[0]]
+        return pdu[:draw(st.integers(fixed, len(pdu) - 1))]
     if which == 'listen-only':
         # a perfectly valid request whose purpose is to silence the device: afterwards a fresh connection must still be served
         # (Twisted front-ends implement the spec's listen-only mode and are not probed, see ASSUMPTIONS)
